@@ -106,6 +106,9 @@ def gen_plan(prop, tier, rng, i):
                 live.append(p)
             else:
                 steps.append({"s": "fs_create", "p": p, "size": size})
+                if rng.random() < 0.12:
+                    # the data file is a symbolic link to a copy kept outside the watched tree (an archive disk)
+                    steps[-1]["link"] = True
                 emit({"k": "created", "p": p})
                 if rng.random() < 0.3:
                     emit({"k": "modified", "p": p})
@@ -594,6 +597,11 @@ def run_plan(prop, plan):
                 if s == "fs_create" or s == "fs_grow":
                     p = os.path.join(root, st["p"])
                     os.makedirs(os.path.dirname(p), exist_ok=True)
+                    if st.get("link") and not os.path.lexists(p):
+                        arch = os.path.join(sc, "archive")
+                        os.makedirs(arch, exist_ok=True)
+                        os.symlink(os.path.join(arch, "%d-%s" % (len(os.listdir(arch)), os.path.basename(p))), p)
+                        res.probe("tracked_file_is_a_symlink")
                     with open(p, "wb") as f:
                         f.write(b"x" * st["size"])
                     continue
